@@ -305,6 +305,9 @@ func c17Knobs(r *Rng, web bool) Knobs {
 // c17Profile generates a profile aimed at the case splits of stacks.go.
 func c17Profile(r *Rng, web bool) *profile.Profile {
 	p := GenProfile(r, c17Knobs(r, web))
+	for tries := 0; len(p.Sample) == 0 && tries < 4; tries++ { // keep sample-less profiles rare
+		p = GenProfile(r, c17Knobs(r, web))
+	}
 	for _, s := range p.Sample { // GenProfile can leave a unit list of an overwritten numeric label behind
 		for k, us := range s.NumUnit {
 			if len(us) != len(s.NumLabel[k]) {
@@ -569,7 +572,7 @@ func runC17(c *Ctx) {
 		c17Direct(c, "corner", q, c17Opts{index: 0, meanDiv: -1, typ: "cpu", unit: "nanoseconds"}, "gran:raw")
 	}
 
-	n := c.Budget(900, 40000)
+	n := c.Budget(1000, 40000)
 	for k := 0; k < n; k++ {
 		p := c17Profile(c.R, false)
 		gran := PickS(c.R, c17Grans)
@@ -578,7 +581,18 @@ func runC17(c *Ctx) {
 	}
 	nw := c.Budget(300, 8000)
 	for k := 0; k < nw; k++ {
-		c17Web(c, "web", c17Profile(c.R, true), c.R)
+		p := c17Profile(c.R, true)
+		gen := "web"
+		if k%12 == 0 { // the arrays that can be empty (Stacks, root's Places) are empty only without samples
+			p.Sample = nil
+			gen = "web-no-samples"
+		} else if k%12 == 1 { // only empty stacks: Stacks non-empty, every stack is the root alone
+			for _, s := range p.Sample {
+				s.Location = nil
+			}
+			gen = "web-empty-stacks"
+		}
+		c17Web(c, gen, p, c.R)
 	}
 	if c.Tier == "thorough" {
 		c17Small(c, 3)
